@@ -169,13 +169,17 @@ func matches(m *configv1.Match, req *envoy.CheckRequest) bool {
 func mustTriggerCheck(log telemetry.Logger, rules []*configv1.TriggerRule, req *envoy.CheckRequest) bool {
 	// If there are no trigger rules, authservice checks should be triggered for all requests.
 	// If the request path is empty, (unlikely, but the piece used to match the rules) then trigger the checks.
-	if len(rules) == 0 || len(req.GetAttributes().GetRequest().GetHttp().GetPath()) == 0 {
+	if len(rules) == 0 {
 		return true
 	}
 
 	// The rules apply to the path component only. Envoy sends the path together with the query
 	// string (and possibly a fragment), which must not take part in the decision.
 	path, _, _ := inthttp.GetPathQueryFragment(req.GetAttributes().GetRequest().GetHttp().GetPath())
+	if len(path) == 0 {
+		// an empty path component (also when only a query or a fragment was sent) always triggers the checks
+		return true
+	}
 
 	for i, rule := range rules {
 		l := log.With("rule-index", i)
